@@ -8,7 +8,8 @@
 // context must be what its own goroutine's operations (plus the parent's before the fork) made it, and after the
 // case the number of goroutine-local tables must be what it was before.
 // M: program, recorded schedule and per-goroutine traces go to cases_*.v; CorrC14.v runs the machine of
-// coq/Model/Ctx.v on the same schedule and compares the traces.
+// coq/Model/Ctx.v on the same schedule and compares the traces (ctx_machine), and evaluates the trace-level
+// statements of Properties/C14.v on the observed traces alone (ctx_spec).
 package main
 
 import (
@@ -31,7 +32,7 @@ type runner struct {
 func newCasesFile() *lib.CasesFile {
 	return &lib.CasesFile{Imports: []string{"Model.Base", "Model.Ctx", "Corr.CorrC14"},
 		Typ:         "ctx_case",
-		Obligations: map[string]string{"ctx_machine": "ctx_mismatches cases"}}
+		Obligations: map[string]string{"ctx_machine": "ctx_mismatches cases", "ctx_spec": "ctx_spec_violations cases"}}
 }
 
 func (r *runner) file(name string) *lib.CasesFile {
